@@ -179,7 +179,9 @@ func alsoConstant(name string, mode eng.Mode, in []*big.Int, fn gad.Fn, want []*
 		cr.Desc = fmt.Sprintf("operands %v, constants where mask bit set (0 = all): %s", in, cr.Desc)
 		return &cr
 	}
-	if compiledEvery != 0 && (h/constantEvery/3)%compiledEvery == 0 {
+	// (an all-constant gadget without outputs compiles to an empty system with an empty witness, which gnark's
+	// solver does not handle: nothing to check there)
+	if compiledEvery != 0 && (h/constantEvery/3)%compiledEvery == 0 && len(rest)+len(want) > 0 {
 		kind, mech := cs.R1CS, cs.MechForcedBits
 		if (h>>40)%2 == 1 {
 			kind = cs.SCS
